@@ -131,6 +131,8 @@ def generate(rng, tier):
             ops.append({"op": "take", "h": h, "g": rng.randrange(3), "pick": rng.randrange(8)})
         elif r < 0.58:
             ops.append({"op": "ds_put", "h": h, "name": rng.choice(["mesh", "part"]), "g": rng.randrange(3)})
+        elif r < 0.63:
+            ops.append({"op": "comp", "h": h, "i": rng.randrange(64), "c": rng.randrange(3)})
         else:
             ops.append({"op": "inplace", "h": h, "i": rng.randrange(64), "sym": rng.choice("+-*/"), "rhs": gen_rhs(rng, n)})
     return {"n": n, "ops": ops}
@@ -353,6 +355,19 @@ def execute(case, stats):
                     V(step, op, "identity", {"group_returns_other_object": key})
                 if h not in G.handles:
                     G.handles.append(h)
+            elif k == "comp":
+                vecs = [hh for hh in G.handles if hh[0] == "vec"]
+                if not vecs or len(G.handles) >= MAXOBJ:
+                    continue
+                hv = vecs[op["i"] % len(vecs)]
+                comps = G.vec[hv[1]]["comps"]
+                co = comps[op["c"] % len(comps)]
+                got = getattr(G.vec[hv[1]]["real"], "xyz"[op["c"] % len(comps)])
+                # v.x is a reference to the component Array itself
+                if ("arr", co) not in G.handles:
+                    G.arr[co]["real"] = got
+                    G.handles.append(("arr", co))
+                    stats.inc("probe.component_array_handle")
             elif k == "ds_put":
                 go = groups[op["g"]]
                 G.ds[dso]["real"][op["name"]] = G.grp[go]["real"]
@@ -446,6 +461,10 @@ def execute(case, stats):
                         nu = xu.mul(xu if compatible else yu, 1 if sym == "*" else -1)
                     if any(not np.all(np.isfinite(v)) for v in xnew):
                         continue
+                    if h[0] == "arr" and nu.key() != xu.key() and any(h[1] in vv["comps"] for vv in G.vec.values()):
+                        # changing the unit of one component Array alone makes its Vector inconsistent by the
+                        # user's own doing: not a behaviour the statement covers
+                        continue
                     if xdt.kind == "i" and any(np.any(v != np.round(v)) for v in xnew):
                         continue
                 # snapshots for the differential clause and for "y untouched"
@@ -496,15 +515,16 @@ def execute(case, stats):
                             if not isinstance(r, osy.Vector):
                                 V(step, op, "identity", {"vector_inplace_returned": type(r).__name__})
                             else:
-                                oc = []
-                                for o, name in zip(xl, "xyz"):
-                                    a = G.arr[o]
-                                    oc.append(G.new_arr(getattr(r, name), a["buf"], a["idx"], nu))
-                                no = G.nid()
-                                G.vec[no] = {"comps": oc, "real": r}
-                                G.handles[hi] = ("vec", no)
-                                if h not in G.handles and len(G.handles) < MAXOBJ and any(h in G.grp[go]["m"].values() for go in groups):
-                                    pass
+                                # the holder's name now refers to what the operator returned.  The statement makes
+                                # every other reference to the same Vector (a group still holding the object the
+                                # operator was applied to, a component Array taken earlier) observe this and every
+                                # later update, value *and* unit: the returned object's components are therefore the
+                                # *same model objects*; every live real object attached to them must always agree.
+                                if r is not x:
+                                    no = G.nid()
+                                    G.vec[no] = {"comps": list(xl), "real": r}
+                                    G.handles[hi] = ("vec", no)
+                                    stats.inc("probe.vector_inplace_returned_new_object")
                         # differential clause: same value and unit as the out-of-place result on deep copies
                         if oop_err is not None:
                             V(step, op, "inplace-vs-outofplace", {"out_of_place_raised": oop_err})
@@ -548,8 +568,19 @@ def execute(case, stats):
                 if o not in seen:
                     seen.add(o)
                     live.append(o)
-        for o in live:
-            a = G.arr[o]
+        pairs = []
+        for hh in list(G.handles) + [m for go in groups for m in G.grp[go]["m"].values()]:
+            if hh[0] == "arr":
+                pairs.append((hh[1], G.arr[hh[1]]["real"]))
+            else:
+                for o_, name in zip(G.vec[hh[1]]["comps"], "xyz"):
+                    pairs.append((o_, getattr(G.vec[hh[1]]["real"], name)))
+        seen_pairs = set()
+        for o, real_obj in pairs:
+            if (o, id(real_obj)) in seen_pairs:
+                continue
+            seen_pairs.add((o, id(real_obj)))
+            a = dict(G.arr[o], real=real_obj)
             realv = np.asarray(a["real"].values)
             want = G.vals(o)
             tol = rtol_of(want.dtype)
@@ -564,7 +595,8 @@ def execute(case, stats):
                 V(step, op, "unit", {"oid": o, "got": str(a["real"].unit), "want_scale": a["unit"].scale, "want_dims": a["unit"].dims, "dtype": str(want.dtype)})
                 break
             # re-synchronise (drift control): exact real values become the model's
-            G.bufs[a["buf"]][a["idx"]] = realv
+            if real_obj is G.arr[o]["real"]:
+                G.bufs[a["buf"]][a["idx"]] = realv
         if viol:
             break
         for i, o1 in enumerate(live):
